@@ -241,6 +241,20 @@ func Judge(sp *Spec, r *vsched.Result) []string {
 	for _, p := range r.Panics {
 		add("C03", "thread panicked: %s", firstLines(p, 6))
 	}
+	// "expect-serve-returned N": emitted by a scenario at a quiescent point after a Shutdown has returned
+	nret := 0
+	for _, e := range r.Events {
+		if strings.HasPrefix(e.Text, "serve.ret ") {
+			nret++
+		}
+		if strings.HasPrefix(e.Text, "expect-serve-returned ") {
+			var n int
+			fmt.Sscanf(e.Text, "expect-serve-returned %d", &n)
+			if nret < n {
+				add("C03", "Shutdown has returned and the system is quiescent (the service has been served again) but only %d of %d earlier Serve calls have returned", nret, n)
+			}
+		}
+	}
 	if sp.Query != nil {
 		out = append(out, JudgeQuery(sp.Query, r)...)
 	}
